@@ -21,7 +21,7 @@ Definition ex_hist : list op :=
 
 Example ex_run : snd (run fixture_sub get_property (init ex_tbl) ex_hist) =
   [Created; Created; Accepted; Accepted; Rejected; Got (VStr "s"); Created;
-   Accepted; Rejected; Accepted; Got (VObj "B"); NewFailed].
+   Accepted; Rejected; Accepted; Got (VObj "B"); NewArity].
 Proof. vm_compute. reflexivity. Qed.
 
 (* own_args_only's hypotheses hold for a live instance of that history *)
@@ -77,7 +77,7 @@ Definition ex_hist2 : list op :=
    OCall 0 "chk_n" (VStr "x"); OCall 0 "nope" (VInt 1); ONewC "PBox" [] (VInt 1)].
 Example ex_run2 : snd (run fixture_sub get_property (init ex_tbl) ex_hist2) =
   [Created; Created; Accepted; Rejected; NewFailed; Accepted; Rejected; Got (VStr "s");
-   Created; Accepted; Accepted; Rejected; Rejected; BadInst; NewFailed].
+   Created; Accepted; Accepted; Rejected; Rejected; BadInst; NewArity].
 Proof. vm_compute. reflexivity. Qed.
 Example ex_hist2_null_free : null_free ex_hist2 = true.
 Proof. reflexivity. Qed.
